@@ -102,20 +102,26 @@ def mirror(mdib_file, n_steps, seeds, kinds=None):
                 properties.strongbind(lp.cmdib, **{obs: (lambda v, _o=obs: notes.setdefault(_o, []).append(v))})
             results = []
             properties.strongbind(lp.pmdib, transaction=results.append)
-            d0 = mdib_diff(lp.pmdib, lp.cmdib)
+            with lp.pmdib.mdib_lock:
+                d0 = mdib_diff(lp.pmdib, lp.cmdib)
             if d0:
                 bad.append({'key': 'initial-mdib-differs', 'detail': f'{mdib_file} after init_mdib: {d0[:2]}'})
                 continue
             h = History(lp, seed)
             for i in range(n_steps):
-                notes.clear()
-                del results[:]
+                with lp.pmdib.mdib_lock:
+                    notes.clear()
+                    del results[:]
                 kind, detail = h.step(kinds[i % len(kinds)] if kinds else None)
                 cases += 1
                 if not lp.wait_synced():
                     bad.append({'key': f'consumer-not-synced:{kind}', 'detail': f'seed {seed} step {i} {kind} {detail}: consumer at {lp.cmdib.mdib_version}, provider at {lp.pmdib.mdib_version}'})
                     break
-                d = mdib_diff(lp.pmdib, lp.cmdib)
+                # compare while holding the provider's mdib_lock: the role provider commits alert-system self checks from
+                # its own thread; a commit sends its reports inside the lock and the consumer applies them before the send
+                # returns, so with the lock held both sides are quiescent at the same version
+                with lp.pmdib.mdib_lock:
+                    d = mdib_diff(lp.pmdib, lp.cmdib)
                 if d:
                     bad.append({'key': f'mirror-differs:{kind}', 'detail': f'{mdib_file} seed {seed} step {i} {kind} {detail}: {d[:2]}'})
                     break
